@@ -2,5 +2,6 @@
 #![allow(unused_imports, dead_code, unused_variables, unused_mut, unused_assignments, unreachable_code, private_interfaces, non_snake_case)]
 use vstd::prelude::*;
 use std::ops::{Deref, DerefMut};
+use std::collections::{HashMap, HashSet};
 use vstd::std_specs::iter::IteratorSpec;
 verus! {
